@@ -95,14 +95,14 @@ static std::string canonical(const std::string &m) {
 }
 
 // replace everything stored for modes other than `mode` by a marker
-static void scrambleOtherModes(json &props, const std::string &mode) {
-  static const char *objs[] = {"kernel", "memory", "stream", "device"};
+// (top-level "modes" and the "modes" member of each object in `objs`: the places the code reads mode entries from)
+static void scrambleOtherModes(json &props, const std::string &mode, const std::vector<std::string> &objs) {
   if (props.isObject() && props.has("modes") && props["modes"].isObject()) {
     std::vector<std::string> ks = props["modes"].keys();
     for (const std::string &k : ks) if (k != mode) props["modes"].set(k, json::parse("{\"kernel\": {\"zz\": 1, \"x\": 99}, \"zz\": 2, \"x\": 98}"));
     props["modes"].set("OtherMode", json::parse("{\"x\": 97, \"memory\": {\"x\": 96}}"));
   }
-  for (const char *o : objs) {
+  for (const std::string &o : objs) {
     if (props.isObject() && props.has(o) && props[o].isObject() && props[o].has("modes") && props[o]["modes"].isObject()) {
       std::vector<std::string> ks = props[o]["modes"].keys();
       for (const std::string &k : ks) if (k != mode) props[o]["modes"].set(k, json::parse("{\"zz\": 3, \"x\": 95}"));
@@ -168,9 +168,9 @@ int main() {
               hp::oracle("a \"modes\" member survives in the device properties");
             // other modes are inert
             json v2 = v;
-            scrambleOtherModes(v2, modeGiven);
+            scrambleOtherModes(v2, modeGiven, {"kernel", "memory", "stream"});
             json S2 = S;
-            scrambleOtherModes(S2, modeGiven);
+            scrambleOtherModes(S2, modeGiven, {"device", "kernel", "memory", "stream"});
             occa::settings() = S2;
             try {
               occa::device D2(v2);
@@ -189,7 +189,7 @@ int main() {
           if (stored.k != Ref::LEAF && modeLayer(RE, D.mode(), ml)) {
             Ref expect = plusD(stored, ml);
             if (toRef(r) != expect) hp::oracle(std::string("per-call ") + o + " properties are not stored < extra < extra[modes/mode]");
-            json v2 = v; scrambleOtherModes(v2, D.mode());
+            json v2 = v; scrambleOtherModes(v2, D.mode(), {});
             json r2 = op == "kp" ? D.kernelProperties(v2) : op == "mp" ? D.memoryProperties(v2) : D.streamProperties(v2);
             if (show(r2) != show(r)) hp::oracle("entries of other modes changed the per-call properties");
           }
